@@ -23,6 +23,11 @@ fn concrete(model: u64, table: u64, variant: u64) -> u32 {
         TABLE + 1
     } else if model > table {
         u32::MAX
+    } else if variant == 2 {
+        // inner ids that are exact multiples of 2^20 (block / power-of-two borders of a table that grows on demand)
+        (model as u32) << 20
+    } else if variant == 3 {
+        (1u32 << 16) << (model as u32 - 2).min(7) // 2^16, 2^17, ... 2^23
     } else {
         // inner ids: spread, variant dependent, order preserving
         (model as u32) * 1_234_567 + (variant as u32) * 1001 + 118
@@ -46,13 +51,13 @@ fn sweep(ont: &Ontology, present: &BTreeSet<u32>, lo: u32, hi: u32) -> Option<St
 fn check_arena(st: &mut Stats, line: &Value, idx: usize, sweep_every: u64, full_u32: bool) -> Vec<String> {
     let mut d = vec![];
     let table = line["table"].as_u64().unwrap();
-    for variant in 0..2u64 {
+    for variant in 0..4u64 {
         let mut b = Builder::new();
         let mut first_name: BTreeMap<u32, String> = BTreeMap::new();
         let mut order: Vec<u32> = vec![];
         for (i, op) in arr(&line["log"]).iter().enumerate() {
             let id = concrete(op["id"].as_u64().unwrap(), table, variant);
-            let name = format!("N{i}");
+            let name = if variant == 1 { format!("N{i}: x: y") } else { format!("N{i}") };
             let res = catch(|| b.new_term(&name, id));
             st.evaluations += 1;
             match (res, op["result"].as_str().unwrap()) {
@@ -120,6 +125,30 @@ fn check_arena(st: &mut Stats, line: &Value, idx: usize, sweep_every: u64, full_
                 d.push(format!("hpo(HpoTermId {id}) and hpo({id}u32) disagree"));
             }
         }
+        // the same terms through the text loader (hp.obo needs the two standard roots): names with ": " survive
+        if variant == 1 && present.iter().all(|x| *x < TABLE) {
+            use crate::scenario::{Scenario, TermSpec};
+            let mut scn = Scenario::default();
+            scn.version = (2024, 1, 1);
+            for id in present.iter().copied().chain([1u32, 118]).collect::<BTreeSet<u32>>() {
+                scn.terms.push(TermSpec { id, name: first_name.get(&id).cloned().unwrap_or_else(|| format!("root {id}")), obsolete: false, repl: None });
+            }
+            scn.edges.push((1, 118));
+            match crate::paths::via_jax(&crate::paths::jax_plain(&scn, Some(idx as u64)), false) {
+                Ok(t) => {
+                    for id in &present {
+                        match t.hpo(*id) {
+                            Some(x) if x.name() == first_name[id] && x.id().as_u32() == *id => {}
+                            other => d.push(format!("from_standard: hpo({id}) = {:?}, the term was added with the name {:?}", other.map(|x| x.name().to_string()), first_name[id])),
+                        }
+                    }
+                    if t.len() != scn.terms.len() {
+                        d.push(format!("from_standard: len() = {} for {} stanzas", t.len(), scn.terms.len()));
+                    }
+                }
+                Err(e) => d.push(format!("from_standard failed on {} plain stanzas: {e}", scn.terms.len())),
+            }
+        }
         // neighbours of every present id and of the table borders
         let mut near: BTreeSet<u32> = BTreeSet::new();
         for c in present.iter().copied().chain([0, 1, 118, TABLE - 1, TABLE, u32::MAX, 1 << 24, 1 << 31]) {
@@ -160,9 +189,14 @@ fn text(v: &Value, alphabet: &[&str]) -> String {
     arr(v).iter().map(|c| alphabet[c.as_u64().unwrap() as usize - 1]).collect()
 }
 
+thread_local! {
+    /// the previous name-lookup ontology of this process, per alphabet: a lookup is a function of the ontology it is asked of
+    static PREV_NAMES: std::cell::RefCell<Vec<Option<(Ontology, Vec<(u32, String)>)>>> = std::cell::RefCell::new(vec![None, None, None]);
+}
+
 fn check_names(st: &mut Stats, line: &Value) -> Vec<String> {
     let mut d = vec![];
-    for alphabet in [["a", "b"], ["é", "😀"], ["ab", "a"]] {
+    for (ai, alphabet) in [["a", "b"], ["é", "😀"], ["ab", "a"]].into_iter().enumerate() {
         // the third alphabet makes distinct model strings collide; it is only used with the
         // expectations recomputed on the rendered strings
         let collide = alphabet[0] == "ab";
@@ -225,6 +259,32 @@ fn check_names(st: &mut Stats, line: &Value) -> Vec<String> {
                 }
             }
         }
+        // the same query asked of the PREVIOUS ontology and at once of this one (both alive): each answers for itself
+        PREV_NAMES.with(|pn| {
+            if let Some((pont, pnames)) = pn.borrow()[ai].as_ref() {
+                for q in arr(&line["queries"]) {
+                    let qs = text(&q["q"], &alphabet);
+                    for (which, o, nm) in [("previous", pont, pnames), ("current", &ont, &names), ("previous", pont, pnames)] {
+                        st.evaluations += 1;
+                        let exact: BTreeSet<u32> = nm.iter().filter(|(_, n)| *n == qs).map(|(i, _)| *i).collect();
+                        match o.gene_by_name(&qs) {
+                            Some(g) if g.name() == qs && exact.contains(&g.id().as_u32()) => {}
+                            None if exact.is_empty() => {}
+                            other => d.push(format!("gene_by_name({qs:?}) asked alternately of two live ontologies: the {which} one returns {:?}, its genes with exactly that symbol are {:?}", other.map(|g| (g.id().as_u32(), g.name().to_string())), exact)),
+                        }
+                        let contains: BTreeSet<u32> = nm.iter().filter(|(_, n)| n.contains(&qs)).map(|(i, _)| *i).collect();
+                        match o.omim_disease_by_name(&qs) {
+                            Some(x) if contains.contains(&x.id().as_u32()) => {}
+                            None if contains.is_empty() => {}
+                            other => d.push(format!("omim_disease_by_name({qs:?}) asked alternately of two live ontologies: the {which} one returns {:?}, matching diseases are {:?}", other.map(|x| x.id().as_u32()), contains)),
+                        }
+                    }
+                    if d.len() > 12 {
+                        break;
+                    }
+                }
+            }
+        });
         // by id: the record with that id or nothing
         let ids: BTreeSet<u32> = names.iter().map(|(i, _)| *i).collect();
         for probe in ids.iter().flat_map(|i| [i.wrapping_sub(1), *i, i + 1, i + 2]).chain([0, u32::MAX]) {
@@ -246,7 +306,9 @@ fn check_names(st: &mut Stats, line: &Value) -> Vec<String> {
                 other => d.push(format!("orpha_disease({probe}) = {:?}, expected {}", other.map(|x| (x.id().as_u32(), x.name().to_string())), if want_or { "the ORPHA record with that id" } else { "nothing" })),
             }
         }
-        if d.len() > 12 {
+        let too_many = d.len() > 12;
+        PREV_NAMES.with(|pn| pn.borrow_mut()[ai] = Some((ont, names)));
+        if too_many {
             break;
         }
     }
